@@ -153,7 +153,7 @@ static const char *get_token_name(ts_parser_state_t *tpsp)
     case T_KW_REFERENCE:
 	return "[Reference]";
     case T_KW_TWO_PORT_ORDER:
-	return "[Two-Port Order]";
+	return "[Two-Port Data Order]";
     case T_KW_VERSION:
 	return "[Version]";
     case T_KW_END:
@@ -447,6 +447,17 @@ static int next_token(ts_parser_state_t *tpsp, uint32_t flags)
 	    case 17:
 		if (strcmp(tpsp->tps_text, "BEGIN INFORMATION") == 0) {
 		    tpsp->tps_token = T_KW_BEGIN_INFORMATION;
+		    return 0;
+		}
+		break;
+
+	    case 19:
+		/*
+		 * Keyword of the Touchstone 2.0 specification.  The shorter
+		 * "TWO-PORT ORDER" above was written by earlier versions.
+		 */
+		if (strcmp(tpsp->tps_text, "TWO-PORT DATA ORDER") == 0) {
+		    tpsp->tps_token = T_KW_TWO_PORT_ORDER;
 		    return 0;
 		}
 		break;
